@@ -90,7 +90,7 @@ func verifDoc2(focus int) (*openapi2.T, map[string]bool) {
 	case 2:
 		feat["form"] = true
 		post.Consumes = []string{"application/x-www-form-urlencoded"}
-		post.Parameters = append(post.Parameters, &openapi2.Parameter{Name: "fa", In: "formData", Required: verifNondetBool("faRequired"), Type: &openapi3.Types{"string"}, Format: "date-time", MinLength: minLen})
+		post.Parameters = append(post.Parameters, &openapi2.Parameter{Name: "fa", In: "formData", Required: verifNondetBool("faRequired"), Type: &openapi3.Types{"string"}, Format: []string{"date-time", "byte", "password"}[verifChoose("faFormat", 3)], MinLength: minLen})
 		post.Parameters = append(post.Parameters, &openapi2.Parameter{Name: "fb", In: "formData", Required: verifNondetBool("fbRequired"), Type: &openapi3.Types{"integer"}, Format: "int64", Maximum: &maxf})
 	}
 	if pick("sharedResponse", false) {
@@ -217,7 +217,7 @@ func verifDocument(focus int) {
 			pa, pb := s.Properties["fa"], s.Properties["fb"]
 			verifAssert(pa != nil && pb != nil && pa.Value.MinLength == fa.MinLength && pb.Value.Max != nil && *pb.Value.Max == *fb.Maximum, "C17 document: form parameters keep their constraints as properties")
 			if pa != nil && pb != nil {
-				verifAssert(pa.Value.Format == "date-time" && pb.Value.Format == "int64", "C17 document: form parameters keep their format as properties")
+				verifAssert(pa.Value.Format == fa.Format && pb.Value.Format == "int64", "C17 document: form parameters keep their format as properties")
 			}
 			var wantReq []string
 			if fa.Required {
@@ -352,7 +352,7 @@ func verifDocument(focus int) {
 		ba, bb := verifFindParam(bpi.Post.Parameters, "formData", "fa"), verifFindParam(bpi.Post.Parameters, "formData", "fb")
 		verifAssert(ba != nil && bb != nil && ba.MinLength == fa.MinLength && bb.Maximum != nil && *bb.Maximum == *fb.Maximum, "C17 back: form parameters keep their constraints")
 		if ba != nil && bb != nil {
-			verifAssert(ba.Type.Is("string") && ba.Format == "date-time" && bb.Type.Is("integer") && bb.Format == "int64", "C17 back: form parameters keep their type and format")
+			verifAssert(ba.Type.Is("string") && ba.Format == fa.Format && bb.Type.Is("integer") && bb.Format == "int64", "C17 back: form parameters keep their type and format")
 		}
 		if ba != nil && bb != nil {
 			verifAssert(ba.Required == fa.Required && bb.Required == fb.Required, "C17 back: form parameters keep their requiredness")
